@@ -189,6 +189,11 @@ func (hs *serverHandshakeStateTLS13) processClientHello() error {
 			break
 		}
 	}
+	if h := verifServerHook(c); h != nil && h.ForceSuiteTLS13 != 0 {
+		if s := mutualCipherSuiteTLS13(hs.clientHello.cipherSuites, h.ForceSuiteTLS13); s != nil {
+			hs.suite = s
+		}
+	}
 	if hs.suite == nil {
 		c.sendAlert(alertHandshakeFailure)
 		return errors.New("tls: no cipher suite supported by both client and server")
@@ -657,6 +662,9 @@ func (hs *serverHandshakeStateTLS13) doHelloRetryRequest(selectedGroup CurveID) 
 		return nil, errors.New("tls: client indicated early data in second ClientHello")
 	}
 
+	if h := verifServerHook(c); h != nil && h.TolerateCookieEcho {
+		clientHello.cookie = hs.clientHello.cookie
+	}
 	if illegalClientHelloChange(clientHello, hs.clientHello) {
 		c.sendAlert(alertIllegalParameter)
 		return nil, errors.New("tls: client illegally modified second ClientHello")
